@@ -42,7 +42,7 @@ FACTS = ("tables", "c14")
 RULE = ("configurations drawn from a seeded generator (0-2 paths with optional per-path locales, "
         "0-4 rules with single/list paths, absent/literal/re:/list/nested-list keys, three actions; "
         "children to depth 2; excluded configurations at the root) x queries over 13 files x 5 file "
-        "locales (incl. an unknown one and None) x 8 keys (incl. none, '', trailing newline); a case "
+        "locales (incl. an unknown one and None) x 10 keys (incl. none, '', trailing newline, regex metacharacters); a case "
         "is one (configuration, query) pair and is distinct by its rendered text; trivial cases "
         "(locale not in the project) are a minority by construction (see histogram verdicts)")
 
@@ -57,8 +57,8 @@ PLOCS = ["de", "fr"]
 DIRS = ["a", "c", "a/d"]
 NAMES = ["b.ftl", "e.properties"]
 FILES = [(pl, d, n) for pl in PLOCS for d in DIRS for n in NAMES] + [(None, "other", "x.ftl")]
-KEYS = [None, "", "k1", "k1\n", "k2", "k2x", "xk1", "kk"]
-LIT_KEYS = ["k1", "k2", "", "k2x", "k1\n", "zz"]
+KEYS = [None, "", "k1", "k1\n", "k2", "k2x", "xk1", "kk", "k.", "kx"]
+LIT_KEYS = ["k1", "k2", "", "k2x", "k1\n", "zz", "k.", "k(1)"]
 RE_KEYS = ["re:k.*", "re:k\\d$", "re:.*x", "re:", "re:k1|k2", "re:(k)\\1", "re:k[12]\\Z", "re:^k2",
            "re:.+\\n", "re:k(?=2)", "re:[^k]"]
 BAD_RE = ["re:(", "re:[a", "re:*"]
@@ -569,7 +569,8 @@ STALE_WITNESS = (
 
 
 # -------------------------------------------------------------------- compile ---
-PROBES = ["", "k1", "k1\n", "k1\n\n", "k2", "k2x", "xk1", "kk", "k", "\n", "zz", "k12"]
+PROBES = ["", "k1", "k1\n", "k1\n\n", "k2", "k2x", "xk1", "kk", "k", "\n", "zz", "k12", "k.", "kx",
+          "k(1)", "k.\n"]
 
 
 def impl_compile(rules):
@@ -618,6 +619,24 @@ def expected_compile(rules):
                     row = [int(p_ == k or p_ == k + "\n") for p_ in PROBES]
                 out.append([expected_row(p), [row], s2l(r["action"])])
     return ok(out)
+
+
+def lit_ast(k):
+    """the AST Model/Filter.v lit_rx builds for the literal key k"""
+    out = ("Eol", False)
+    for c in reversed(k):
+        out = ("Cat", rx2coq.Chr(False, [(ord(c), ord(c))]), out)
+    return out
+
+
+def check_literal_asts(chk, rules):
+    """re.escape(key) + "$", read by CPython's parser, is the literal characters then `$`"""
+    for r in rules:
+        for k in (all_keys_of(r["key"]) if "key" in r else []):
+            if not k.startswith("re:"):
+                got, _ = rx2coq.parse(re.escape(k) + "$")
+                if got != lit_ast(k):
+                    chk.fail("literal-key-ast", {"key": k}, {"got": repr(got), "expected": repr(lit_ast(k))})
 
 
 # --------------------------------------------------------------------- in-file ---
@@ -786,12 +805,12 @@ def run(chk, runner_ok):
             if fn.endswith(".json"):
                 corpus.append(json.load(open(os.path.join(cdir, fn)))["config"])
     # ---- main stream ----------------------------------------------------
-    n_cfg, nq = chk.n((140, 60), (1500, 90))
+    n_cfg, nq = chk.n((2000, 60), (9000, 90))
     descs = corpus + [gen_config(rng) for _ in range(n_cfg)]
     run_filter_stream(chk, model, "FILTER", descs, nq)
     # ---- the dedicated stream of the known finding ------------------------
     descs = [D10_WITNESS]
-    for _ in range(chk.n(12, 80)):
+    for _ in range(chk.n(80, 600)):
         d = gen_config(rng, excludes=False)
         for _ in range(rng.choice([1, 1, 2])):
             d["excludes"].append(gen_config(rng, 1, False, None, 0.9))
@@ -799,12 +818,12 @@ def run(chk, runner_ok):
     run_filter_stream(chk, model, "FILTER-exclude", descs, nq, finding_stream=True)
     # ---- the dedicated stream of the second finding: patterns without variables ----
     POOL["literal"] = True
-    descs = [LITERAL_WITNESS] + [gen_config(rng) for _ in range(chk.n(12, 80))]
+    descs = [LITERAL_WITNESS] + [gen_config(rng) for _ in range(chk.n(80, 600))]
     POOL["literal"] = False
     run_filter_stream(chk, model, "FILTER-literal", descs, nq, finding_stream=True)
     # ---- construction that raises ---------------------------------------
     descs = []
-    for _ in range(chk.n(20, 100)):
+    for _ in range(chk.n(80, 600)):
         d = gen_config(rng)
         nodes = [n for _, n in walk_nodes(d)]
         if rng.random() < 0.5:
@@ -838,7 +857,7 @@ def run(chk, runner_ok):
     # ---- stale caches -----------------------------------------------------
     cases, impl, reqs = [], [], []
     stale_seen = 0
-    for i in range(chk.n(60, 500)):
+    for i in range(chk.n(300, 3000)):
         if i == 0:
             d, ops = copy.deepcopy(STALE_WITNESS[0]), list(STALE_WITNESS[1])
         else:
@@ -868,13 +887,14 @@ def run(chk, runner_ok):
             chk.fail("stale-not-exercised", {}, "the stale stream never hit a stale cache slot")
     # ---- _compile_rule ------------------------------------------------------
     cases, impl, reqs = [], [], []
-    for i in range(chk.n(300, 3000)):
+    for i in range(chk.n(1500, 12000)):
         rules = [gen_rule(rng) for _ in range(rng.choice([1, 1, 2, 3]))]
         if i % 10 == 0:
             rules.append({"path": gen_pattern(rng), "key": ["k1", [rng.choice(BAD_RE)]],
                           "action": "error"})
         out = impl_compile(rules)
         exp = expected_compile(rules)
+        check_literal_asts(chk, rules)
         chk.count(("compile", json.dumps(rules, sort_keys=True)))
         chk.hist("compiled_rules", len(out[1]) if out[0] == 0 else "raise")
         stripped = out if out[0] != 0 else [0, [[[t[:2] for t in r[0]], r[1], r[2]] for r in out[1]]]
@@ -890,7 +910,7 @@ def run(chk, runner_ok):
     # ---- in-file clause -------------------------------------------------------
     cases, impl, reqs = [], [], []
     with tempfile.TemporaryDirectory(prefix="c14_") as tmp:
-        for i in range(chk.n(150, 1200)):
+        for i in range(chk.n(600, 5000)):
             case, observed = run_infile_case(rng, tmp, i)
             exp = infile_expected(case)
             chk.count(("infile", json.dumps(case, sort_keys=True)))
